@@ -9,6 +9,7 @@ import (
 	"io"
 	"strings"
 	"testing"
+	"time"
 	"unicode/utf8"
 
 	"pgregory.net/rapid"
@@ -54,10 +55,16 @@ func c20Normalise(s string) string {
 	var sb strings.Builder
 	var quote rune
 	space := false
+	escaped := false
 	for _, r := range s {
 		if quote != 0 {
 			sb.WriteRune(r)
-			if r == quote {
+			switch {
+			case escaped: // the character after a backslash belongs to the literal, whatever it is
+				escaped = false
+			case r == '\\':
+				escaped = true
+			case r == quote:
 				quote = 0
 			}
 			continue
@@ -93,7 +100,9 @@ func c20Literal(t *rapid.T) string {
 		// "\r" is Enter pressed inside the literal: the console turns it into a space
 		sb.WriteString(rapid.SampledFrom([]string{";", ";", " ", "a", "b;c", other, other + ";", "  ", "x y", "é", "日本", ";;", "SELECT", ",", "(", "--", "/*", "\r", ";\r", "\r;",
 			// characters that are not "graphic": joiners, soft hyphen, byte-order mark, private use, a 4-byte emoji sequence
-			"\u200d", "a\u200cb", "co\u00adop", "\ufeff", "\ue000", "👩\u200d👩", "\u00a0", "\u2028", "\U000e0041"}).Draw(t, "part"))
+			"\u200d", "a\u200cb", "co\u00adop", "\ufeff", "\ue000", "👩\u200d👩", "\u00a0", "\u2028", "\U000e0041",
+			// escapes: a backslash takes the next character with it (an escaped backslash, an escaped quote)
+			"\\\\", "C:\\\\logs\\\\", "\\" + q, "\\" + q + ";", "\\n"}).Draw(t, "part"))
 	}
 	sb.WriteString(q)
 	return sb.String()
@@ -267,5 +276,26 @@ func c20Run(c c20Case, st *vlib.Stats) string {
 }
 
 func TestVerifC20(t *testing.T) {
-	vlib.Drive(t, vlib.Prop[c20Case]{ID: "C20", Gen: c20Gen, Run: c20Run})
+	cfg := vlib.GetConfig()
+	st := vlib.NewStats("C20")
+	defer st.Write(cfg, "C20")
+	procReplay := false
+	if cfg.Replay != "" {
+		if raw, err := vlib.LoadReplay(cfg.Replay); err == nil && bytes.Contains(raw, []byte(`"proc_lines"`)) {
+			procReplay = true
+		}
+	}
+	if !procReplay {
+		vlib.DriveWith(t, vlib.Prop[c20Case]{ID: "C20", Gen: c20Gen, Run: c20Run}, cfg, st)
+	}
+	if st.Failed() || (cfg.Replay != "" && !procReplay) {
+		return
+	}
+	// the console program itself, on a pseudo terminal: a few sessions per shard
+	pcfg := cfg
+	pcfg.Checks = cfg.Checks / 5000
+	if pcfg.Checks < 3 {
+		pcfg.Checks = 3
+	}
+	vlib.DriveWith(t, vlib.Prop[c20ProcCase]{ID: "C20", Gen: c20ProcGen, Run: c20ProcRun, Shrink: 5 * time.Second}, pcfg, st)
 }
